@@ -36,11 +36,12 @@ def _defs_for(ob):
 def make_job(ob, tier, extra_axioms=()):
     hyps = list(ob["hyps"]) + _defs_for(ob)
     smt2, axioms = smt.to_smt2(hyps, ob["goal"], extra_axioms=extra_axioms)
+    smt2_ground = smt.to_smt2_ground(hyps, ob["goal"])
     wanted = []
     for inp in ob.get("inputs", []):
         if "term" in inp:
             wanted.append(dict(name=inp["name"], kind=inp["kind"], sexpr=inp["term"].sexpr()))
-    return dict(name=ob["name"], smt2=smt2, wanted=wanted, z3_ms=10000 if tier == "quick" else 20000,
+    return dict(name=ob["name"], smt2=smt2, smt2_ground=smt2_ground, wanted=wanted, z3_ms=10000 if tier == "quick" else 20000,
                 cvc5_s=20 if tier == "quick" else 40, use_cvc5=True, recheck_cvc5=(tier == "thorough"),
                 axioms=axioms, choices=[i for i in ob.get("inputs", []) if i.get("kind") == "choice"])
 
@@ -128,7 +129,7 @@ class PropertyRun:
         for name, rs in by.items():
             if all(r["verdict"] == "unsat" for r in rs):
                 v = "discharged"
-            elif any(r["verdict"] == "sat" for r in rs):
+            elif any(r["verdict"] in ("sat", "candidate") for r in rs):
                 v = "refuted"
             elif any(r["verdict"] == "error" for r in rs):
                 v = "error"
